@@ -175,7 +175,58 @@ def execute(prop_mod, seed, tier='quick', replay=None, index=None, keep_events=F
                   extra=(ctx.log.events if keep_events else None))
 
 
+_ISO_PROP = None
+
+
+def set_iso_prop(prop_mod):
+    """the property module the zygote's children execute (set before the zygote is forked)"""
+    global _ISO_PROP
+    _ISO_PROP = prop_mod
+    from . import zygote
+    zygote.register('iso', _iso_task)
+
+
+def run_sequence(prop_mod, items, tier, keep_events=False, wall_limit=120, opts=None):
+    """Execute runs one after the other in this process, keeping every Result alive until the end - the one code path
+    shared by batch chunks, the minimiser and replay, so that the process state a run sees (heap layout included) is the
+    same in all three.  items: list of (seed, replay_tape_or_None, index)."""
+    out = []
+    for k, (seed, replay, index) in enumerate(items):
+        last = k == len(items) - 1
+        out.append(execute(prop_mod, seed, tier, replay=replay, index=index, keep_events=keep_events and last,
+                           wall_limit=wall_limit, opts=opts))
+    return out
+
+
+def _iso_task(prefix_seeds, seed, tier, replay, keep_events, wall_limit, opts):
+    items = [(ps, None, None) for ps in prefix_seeds] + [(seed, replay, None)]
+    return run_sequence(_ISO_PROP, items, tier, keep_events, wall_limit, opts)[-1]
+
+
+def _crash_result(seed, replay, status):
+    sig = os.WTERMSIG(status) if (status is not None and os.WIFSIGNALED(status)) else None
+    return Result(index=None, seed=seed, status='violation', vclass='interpreter_crash',
+                  detail='the interpreter died (signal %s, status %s) while executing the run' % (sig, status), fingerprint='',
+                  nontrivial=False, counters={}, faults={}, reach={}, post={}, steps=0, digest='', scenario={}, tape=replay or {},
+                  known=[], ndraws=0, extra=None)
+
+
 def execute_isolated(prop_mod, prefix_seeds, seed, tier='quick', replay=None, keep_events=False, wall_limit=120, opts=None):
+    """Execute in a child forked from the zygote: first the scenarios of `prefix_seeds` (the runs that preceded the
+    target in its chunk - process state such as caches, the global RNG or recycled addresses may carry over), then the
+    target.  Returns the target's Result.  A child that dies is reported as the violation class `interpreter_crash`."""
+    from . import zygote
+    z = zygote.get()
+    if z is not None and _ISO_PROP is prop_mod:
+        status, res = z.call('iso', (list(prefix_seeds), seed, tier, replay, keep_events, wall_limit, opts),
+                             timeout=wall_limit * (len(prefix_seeds) + 2) + 60 if wall_limit else None)
+        if res is None or status != 0:
+            return _crash_result(seed, replay, status)
+        return res
+    return _execute_forked(prop_mod, prefix_seeds, seed, tier, replay, keep_events, wall_limit, opts)
+
+
+def _execute_forked(prop_mod, prefix_seeds, seed, tier='quick', replay=None, keep_events=False, wall_limit=120, opts=None):
     """Execute in a forked child: first the scenarios of `prefix_seeds` (the runs
     that preceded the target in its worker chunk - process state such as caches or
     the global RNG may carry over), then the target.  Returns the target's Result.
